@@ -215,3 +215,16 @@ Definition pop_level (site : nat) (lv : list (list bytes)) (i : N) : res (bytes 
   | [] => Panic site
   | x :: r => Ok (x, vec_set lv i (rev r))
   end).
+
+(* ---- for src/kms/envelope.rs ---- *)
+Require Import RV.Model.Envelope.
+
+(* tmp.read_u16::<LittleEndian>()? : an io error converts to KmsError::OperationFailed *)
+Definition cur_read_u16_k (c : cursor) : kres (N * cursor) :=
+  let r := cur_rest c in
+  if (length r <? 2)%nat then Err OperationFailed else Ok (rd16 r, (fst c, snd c + 2)).
+
+(* tmp.read_exact(&mut buf)? with buf of n bytes *)
+Definition cur_read_exact_k (c : cursor) (n : N) : kres (bytes * cursor) :=
+  let r := cur_rest c in
+  if (lenN r <? n) then Err OperationFailed else Ok (firstn (N.to_nat n) r, (fst c, snd c + n)).
